@@ -145,3 +145,50 @@ Definition delim_mismatches (order : list delim) (cs : list delim_case) : list Z
 (* read back with the same shape and values *)
 Definition roundtrip_violations (cs : list roundtrip_case) : list Z :=
   indices_where (fun c => negb (otable_agree (Some (r_table c)) (r_obs c))) cs 0.
+
+(* ---------------------------------------------------------------- what the decision can depend on *)
+
+(* the numbers of a line, in order, whatever separates them *)
+Fixpoint nums_of (l : line) : list Z :=
+  match l with
+  | [] => []
+  | Num z :: t => z :: nums_of t
+  | Sep _ :: t => nums_of t
+  end.
+
+(* the table a text holds if it is accepted at all: the numbers of its non-blank lines *)
+Definition numbers_of (ls : list line) : table :=
+  map nums_of (filter (fun l => negb (blank_line l)) ls).
+
+Definition accepted (d : delim) (ls : list line) : bool :=
+  match try_parse d ls with Some _ => true | None => false end.
+
+(* the separator that decides: the first one of the list under which the whole text parses *)
+Definition winner (order : list delim) (ls : list line) : option delim := find (fun d => accepted d ls) order.
+
+Fixpoint count_sep (d : delim) (l : line) : nat :=
+  match l with
+  | [] => 0
+  | Sep d' :: t => (if delim_eqb d d' then 1 else 0) + count_sep d t
+  | Num _ :: t => count_sep d t
+  end.
+
+(* every separator character of the line other than d is a blank (tab / space) *)
+Definition others_blank (d : delim) (l : line) : bool :=
+  forallb (fun tk => match tk with Num _ => true | Sep d' => delim_eqb d d' || is_blank tk end) l.
+
+(* writing with a GAP: the same run of separator characters between every two neighbours of a row, e.g. ", "
+   (comma + blank), " | ", tab + blank *)
+Definition gap := list delim.
+
+Definition render_gap_row (g : gap) (row : list Z) : line :=
+  match row with
+  | [] => []
+  | x :: t => Num x :: flat_map (fun y => map Sep g ++ [Num y]) t
+  end.
+
+Definition render_gap (g : gap) (t : table) : list line := map (render_gap_row g) t.
+
+(* d reads a gap: it occurs exactly once in it and everything else in the gap is blank *)
+Definition gap_ok (d : delim) (g : gap) : bool :=
+  Nat.eqb (count_sep d (map Sep g)) 1 && others_blank d (map Sep g).
